@@ -43,13 +43,13 @@ def shards(ctx):
         shard("deep", N2, K1, '{"1"}', maxlen=8 if q else 10, depth=3 if q else 4, opens=4, kv=2, unclosed=2,
               keep=500 if q else 12000),
         # the line level: values with '=', blanks, empty; comments, blank lines, lines without '=' / without key
-        shard("lines", N1, K2, '{"1", "x=y", "", "a b"}', noise="NoiseAll", maxlen=6, depth=1, opens=2, kv=3, nnoise=2,
-              unclosed=2, keep=1500 if q else None),
+        shard("lines", N1, K2, '{"1", "x=y", "", "a b"}', noise="NoiseAll", maxlen=5 if q else 6, depth=1, opens=2, kv=3,
+              nnoise=2, unclosed=2, keep=1800 if q else None),
         # typed getters over the whole vocabulary
         shard("typed", N1, K2, TYPED, maxlen=4, depth=1, opens=1, kv=2, unclosed=1),
         # XML-hostile characters inside values and comments
-        shard("hostile", N2, K2, '{"1"}', hos="HosAll", noise="NoiseSome", maxlen=6, depth=2, opens=2, kv=2, nnoise=1,
-              tail=2, unclosed=3, keep=700 if q else None),
+        shard("hostile", N2, K2, '{"1"}', hos="HosAll", noise="NoiseSome", maxlen=5 if q else 6, depth=2, opens=2, kv=2,
+              nnoise=1, tail=2, unclosed=3, keep=700 if q else None),
         # a close that matches nothing
         shard("mismatch", N2, K1, '{"1"}', maxlen=6, depth=2, opens=2, kv=2, unclosed=0, mismatch=True,
               keep=500 if q else None),
@@ -243,6 +243,7 @@ def run(ctx):
         "nothing observably missing is recorded as an observation only",
     ]
     exe = gobuild.build(ctx, "confdrive")
+    ctx.log("driver built")
     if ctx.replay:
         return replay(ctx, exe)
 
@@ -286,6 +287,7 @@ def run(ctx):
         "-sample", os.path.join(REPO, "tars", "util", "conf", "MMGR.TestServer.conf"), "-texts", rpath], timeout=1200)
     rec_lines = open(rpath).readlines()
     fuzz_lines = open(fpath).readlines()
+    ctx.log("real package driven: %d documents, %d arbitrary inputs" % (len(rec_lines), len(fuzz_lines)))
     if len(rec_lines) != len(docs) or len(fuzz_lines) != nfuzz:
         raise Inconclusive("driver wrote %d/%d records" % (len(rec_lines), len(fuzz_lines)))
 
@@ -308,6 +310,7 @@ def run(ctx):
         return kind, idx, vs, r
 
     results = list(pool.map(judge, chunks))
+    ctx.log("oracle done: %d chunks" % len(chunks))
     ostates = otrans = 0
     tally = {}
     observations = {}
@@ -365,6 +368,7 @@ def run(ctx):
     if accepted_doc is not None:
         st = selftest(ctx, accepted_doc, next((l for l in fuzz_lines if '"class":"panic"' not in l), None))
 
+    ctx.log("self-test done", st)
     # ---- 6. the model-only results
     mc = {}
     mstates = mtrans = 0
